@@ -19,9 +19,7 @@ THEOREMS = [A + n for n in ("tso_publication", "no_overwrite_unread", "conc_exac
            ["UrcuVerif.C13_conc_partial_proved",
             W + "Neg.lost_wakeup_without_mb", W + "Neg.lost_wakeup_without_mb_late", W + "Neg.lost_wakeup_scan_before_dec",
             A + "Neg.overwrite_when_tail_published_early"]
-UNPROVED = ["UrcuVerif.C13_conc_full = C13_conc_partial ∧ C13_conc_live: the liveness half (a sleeping defer thread with a non-empty "
-            "queue eventually leaves FUTEX_WAIT on every weakly fair run) is stated, not proved; proved instead: "
-            "reclaimer_no_lost_wakeup + waker_not_stuck + waker_measure + wake_wakes (its premises minus the fairness argument)"]
+UNPROVED = []   # C13_conc_full is proved: UrcuVerif.C13_conc_full_proved (Props/LiveC13.lean, audited by chk.live_part)
 TRUSTED = ["Lean 4.33 kernel; axioms ⊆ {propext, Classical.choice, Quot.sound}",
            "x86-TSO machine (FIFO store buffer per thread, loads from memory or own buffer, locked RMW / mfence / mutex / "
            "system calls drain the buffer); futex contract (FUTEX_WAIT compares and sleeps atomically; EAGAIN / EINTR / "
